@@ -266,6 +266,13 @@ def gen_record_scenario(rng, sid, fn, k, n, pattern):
                 "generator_args": rng.random() < 0.5, "via_config": rng.random() < 0.3}
     if fn == "pre_process":
         scenario["minlength"] = rng.choice([0, 0, 1000])
+        if n >= 2 and rng.random() < 0.6:
+            # identifiers that have to be cleaned and then collide: the names given to later records depend on the
+            # names given to earlier ones
+            spellings = ["scaf(7)", "scaf[7]", "scaf=7", "scaf;7", "scaf 7"]
+            for record, spelling in zip(rng.sample(records, min(n, rng.randint(2, 4))), spellings):
+                record["id"] = spelling
+            scenario["colliding_ids"] = True
     return scenario
 
 
@@ -584,6 +591,14 @@ def check_record(ctx, book, sc, ev):  # pylint: disable=too-many-return-statemen
     facts["completion_order_is_submission_order"] = identity
     ids = [t["id"] for t in tasks]
     seq_ids = [t.get("seq_id") for t in tasks]
+    if fn == "pre_process":
+        # argument order: the record returned at position i is the record handed in at position i (for every
+        # number of workers, one included)
+        ctx.count("op:pre_process_positions")
+        positions = [t.get("record_index") for t in tasks]
+        if positions != list(range(1, len(tasks) + 1)):
+            ctx.violate("record-order-differs", dict(facts, returned_positions=positions, same_multiset=True), sc)
+            return False
     if ids != seq_ids:
         ctx.violate("record-order-differs", dict(facts, same_multiset=sorted(map(str, ids)) == sorted(map(str, seq_ids))), sc)
         return False
